@@ -7,6 +7,9 @@ server close, every reachable state satisfies `GOk`: each client record has one 
 connected, waiting in the listen queue of a busy one-shot server, served and idle, finished) and the
 server's tables mention exactly the served-and-idle clients.
 -/
+set_option linter.unusedSimpArgs false
+set_option linter.unusedVariables false
+set_option linter.unnecessarySimpa false
 namespace Rpyc.Srv
 
 /-! ### projections -/
@@ -52,7 +55,7 @@ def Free (c : Cli) : Prop :=
 
 /-- served, nobody reading, every table of its server kind mentions it -/
 def Served (cfg : Cfg) (closed : Bool) (c : Cli) : Prop :=
-  c.inbox = [] ∧ c.connOpen = true ∧ c.inst.isSome = true ∧ c.connHooks = 1 ∧ c.discHooks = 0 ∧ c.shut = false ∧
+  c.inbox = [] ∧ c.connOpen = true ∧ c.inst ≠ none ∧ c.connHooks = 1 ∧ c.discHooks = 0 ∧ c.shut = false ∧
   c.clientOpen = true ∧
   c.tracked = (cfg.kind == .threaded || cfg.kind == .oneshot) ∧ c.srvFd = (cfg.kind != .forking) ∧
   c.child = (cfg.kind == .forking) ∧ c.inFd = (cfg.kind == .pool) ∧ c.polled = (cfg.kind == .pool) ∧
@@ -62,7 +65,7 @@ def Served (cfg : Cfg) (closed : Bool) (c : Cli) : Prop :=
 def Gone (closed : Bool) (c : Cli) : Prop :=
   c.shut = true ∧ c.srvFd = false ∧ c.child = false ∧ c.tracked = false ∧ c.inFd = false ∧ c.connOpen = false ∧
   c.inbox = [] ∧ (c.polled = true → closed = true) ∧
-  (c.inst.isSome = true → c.connHooks = 1 ∧ c.discHooks = 1) ∧ (c.inst = none → c.connHooks = 0 ∧ c.discHooks = 0)
+  (c.inst ≠ none → c.connHooks = 1 ∧ c.discHooks = 1) ∧ (c.inst = none → c.connHooks = 0 ∧ c.discHooks = 0)
 
 def Shape (cfg : Cfg) (closed : Bool) (c : Cli) : Prop :=
   match c.phase with
@@ -77,5 +80,527 @@ def COk (cfg : Cfg) (closed : Bool) (c : Cli) : Prop :=
 
 theorem COk.default (cfg : Cfg) (closed : Bool) : COk cfg closed {} := by
   simp [COk, Shape, Free]
+
+
+/-! ### per-client lemmas: every way the server rewrites a record keeps its shape -/
+
+theorem answer_ok (cfg : Cfg) (cl : Bool) (c : Cli) (seq : Nat) (r : ReqKind) (n : Nat) (h : COk cfg cl c) :
+    COk cfg cl (answer c seq r n).1 := by
+  cases r <;> simpa [answer, COk, Shape, Free, Served, Gone] using h
+
+theorem answer_phase (c : Cli) (seq : Nat) (r : ReqKind) (n : Nat) : (answer c seq r n).1.phase = c.phase := by
+  cases r <;> simp [answer]
+
+theorem answer_inst (c : Cli) (seq : Nat) (r : ReqKind) (n : Nat) : (answer c seq r n).1.inst = c.inst := by
+  cases r <;> simp [answer]
+
+theorem untrack_ok (cfg : Cfg) (cl : Bool) (c : Cli) (hk : cfg.kind = .pool ∨ cfg.kind = .forking) (h : COk cfg cl c) :
+    COk cfg cl { c with tracked := false } := by
+  rcases c with ⟨cred, phase, inbox, inst, connOpen, connHooks, discHooks, srvFd, shut, child, table, replies, nextSeq,
+    clientOpen, partSent, tracked, inFd, polled⟩
+  rcases hk with hk | hk <;> cases phase <;> simp_all (config := {decide := true}) [COk, Shape, Free, Served, Gone]
+
+/-- `Server.close()` of a threaded, forking or one-shot server, client by client -/
+theorem closeEffect_ok (cfg : Cfg) (c : Cli) (hk : cfg.kind ≠ .pool) (h : COk cfg false c) :
+    COk cfg true (closeEffect c) := by
+  rcases c with ⟨cred, phase, inbox, inst, connOpen, connHooks, discHooks, srvFd, shut, child, table, replies, nextSeq,
+    clientOpen, partSent, tracked, inFd, polled⟩
+  rcases cfg with ⟨kind, auth, nb⟩
+  cases kind <;> cases phase <;>
+    simp_all (config := {decide := true}) [COk, Shape, Free, Served, Gone, closeEffect, shutOne, endServe, release, closeConn]
+
+/-- `ThreadPoolServer.close()`, client by client -/
+theorem poolCloseEffect_ok (cfg : Cfg) (c : Cli) (hk : cfg.kind = .pool) (h : COk cfg false c) :
+    COk cfg true (dropEffect (closeEffect c)) := by
+  rcases c with ⟨cred, phase, inbox, inst, connOpen, connHooks, discHooks, srvFd, shut, child, table, replies, nextSeq,
+    clientOpen, partSent, tracked, inFd, polled⟩
+  rcases cfg with ⟨kind, auth, nb⟩
+  cases phase <;>
+    simp_all (config := {decide := true}) [COk, Shape, Free, Served, Gone, closeEffect, dropEffect, endServe, release, closeConn]
+
+/-! ### the global invariant -/
+
+structure GOk (s : St) : Prop where
+  cli : ∀ k, COk s.cfg s.closedFlag (s.cli k)
+  q : s.queue = []
+  b : s.blocked = []
+  nb : s.cfg.kind = .pool → 0 < s.cfg.nb
+  closed : s.closedFlag = true →
+    s.listening = false ∧ s.active = false ∧ s.acceptAlive = false ∧ s.acceptBusy = none ∧ s.poolUp = false
+  opn : s.closedFlag = false →
+    s.listening = true ∧ s.active = true ∧ s.acceptAlive = true ∧ s.poolUp = (s.cfg.kind == .pool) ∧
+    (s.cfg.kind ≠ .oneshot → s.acceptBusy = none)
+  busy : ∀ b, s.acceptBusy = some b → s.cfg.kind = .oneshot ∧ (s.cli b).phase = .idle
+  free : s.cfg.kind = .oneshot → s.closedFlag = false → s.acceptBusy = none → ∀ j, (s.cli j).phase = .absent
+  oidle : s.cfg.kind = .oneshot → ∀ j, (s.cli j).phase = .idle → s.acceptBusy = some j
+  odone : s.cfg.kind = .oneshot → ∀ j, (s.cli j).phase = .done → s.closedFlag = true
+  oacc : s.cfg.kind = .oneshot → s.accepted ≤ 1 ∧ (s.closedFlag = false → s.acceptBusy = none → s.accepted = 0)
+  ouniq : s.cfg.kind = .oneshot → ∀ i j, (s.cli i).inst ≠ none → (s.cli j).inst ≠ none → i = j
+
+theorem GOk.init (cfg : Cfg) (hnb : cfg.kind = .pool → 0 < cfg.nb) : GOk (init cfg) := by
+  refine ⟨?_, rfl, rfl, hnb, ?_, ?_, ?_, ?_, ?_, ?_, ?_, ?_⟩ <;> simp [Srv.init, COk.default]
+
+/-- fields the invariant does not read -/
+theorem GOk.congr {s s' : St} (h : GOk s) (h1 : s'.cfg = s.cfg) (h2 : s'.closedFlag = s.closedFlag)
+    (h3 : s'.listening = s.listening) (h4 : s'.active = s.active) (h5 : s'.acceptAlive = s.acceptAlive)
+    (h6 : s'.acceptBusy = s.acceptBusy) (h7 : s'.queue = s.queue) (h8 : s'.blocked = s.blocked)
+    (h9 : s'.poolUp = s.poolUp) (h10 : s'.cli = s.cli) (h11 : s.cfg.kind = .oneshot → s'.accepted = s.accepted) :
+    GOk s' := by
+  obtain ⟨a1, a2, a3, a4, a5, a6, a7, a8, a9, a10, a11, a12⟩ := h
+  refine ⟨?_, ?_, ?_, ?_, ?_, ?_, ?_, ?_, ?_, ?_, ?_, ?_⟩
+  case refine_11 => intro hk; rw [h1] at hk; simpa only [h2, h6, h11 hk] using a11 hk
+  all_goals (simp only [h1, h2, h3, h4, h5, h6, h7, h8, h9, h10]; assumption)
+
+/-- one record replaced by another of the same phase and instance -/
+theorem GOk.upd {s : St} (h : GOk s) (k : Nat) (c' : Cli) (hc : COk s.cfg s.closedFlag c')
+    (hp : c'.phase = (s.cli k).phase) (hi : c'.inst = (s.cli k).inst) : GOk (s.set k c') := by
+  obtain ⟨a1, a2, a3, a4, a5, a6, a7, a8, a9, a10, a11, a12⟩ := h
+  have hcli : ∀ j, ((s.set k c').cli j).phase = (s.cli j).phase := by
+    intro j; by_cases hj : j = k
+    · subst hj; simp [hp]
+    · simp [set_cli_ne _ _ _ _ hj]
+  have hinst : ∀ j, ((s.set k c').cli j).inst = (s.cli j).inst := by
+    intro j; by_cases hj : j = k
+    · subst hj; simp [hi]
+    · simp [set_cli_ne _ _ _ _ hj]
+  refine ⟨?_, a2, a3, a4, a5, a6, ?_, ?_, ?_, ?_, a11, ?_⟩
+  · intro j; by_cases hj : j = k
+    · subst hj; simpa using hc
+    · simpa [set_cli_ne _ _ _ _ hj] using a1 j
+  · intro b hb; simpa [hcli] using a7 b hb
+  · intro h1 h2 h3 j; simpa [hcli] using a8 h1 h2 h3 j
+  · intro h1 j hj; exact a9 h1 j (by simpa [hcli] using hj)
+  · intro h1 j hj; exact a10 h1 j (by simpa [hcli] using hj)
+  · intro h1 i j hi' hj'; exact a12 h1 i j (by simpa [hinst] using hi') (by simpa [hinst] using hj')
+
+
+
+@[simp] theorem kind_beq (a b : Kind) : (a == b) = decide (a = b) := rfl
+@[simp] theorem kind_bne (a b : Kind) : (a != b) = !decide (a = b) := rfl
+
+theorem closeEffect_inst (c : Cli) : (closeEffect c).inst = c.inst := by
+  unfold closeEffect shutOne endServe release closeConn
+  split
+  · cases c.phase <;> simp <;> split <;> simp
+  · split <;> simp
+
+theorem dropEffect_inst (c : Cli) : (dropEffect c).inst = c.inst := by
+  unfold dropEffect endServe release closeConn
+  split
+  · split <;> simp
+  · rfl
+
+theorem closeEffect_not_idle (cfg : Cfg) (c : Cli) (hk : cfg.kind = .oneshot) (h : COk cfg false c) :
+    (closeEffect c).phase ≠ .idle := by
+  rcases c with ⟨cred, phase, inbox, inst, connOpen, connHooks, discHooks, srvFd, shut, child, table, replies, nextSeq,
+    clientOpen, partSent, tracked, inFd, polled⟩
+  rcases cfg with ⟨kind, auth, nb⟩
+  cases phase <;>
+    simp_all (config := {decide := true}) [COk, Shape, Free, Served, Gone, closeEffect, shutOne, endServe, release, closeConn]
+
+theorem dropEffect_closed (cfg : Cfg) (c : Cli) (hk : cfg.kind = .pool) (h : COk cfg true c) : dropEffect c = c := by
+  rcases c with ⟨cred, phase, inbox, inst, connOpen, connHooks, discHooks, srvFd, shut, child, table, replies, nextSeq,
+    clientOpen, partSent, tracked, inFd, polled⟩
+  rcases cfg with ⟨kind, auth, nb⟩
+  cases phase <;> simp_all (config := {decide := true}) [COk, Shape, Free, Served, Gone, dropEffect]
+
+theorem GOk.baseClose_nonpool {s : St} (h : GOk s) (hk : s.cfg.kind ≠ .pool) : GOk (baseClose s) := by
+  unfold baseClose
+  by_cases hc : s.closedFlag = true
+  · simp [hc, h]
+  · have hc' : s.closedFlag = false := by simpa using hc
+    simp only [hc', Bool.false_eq_true, if_false]
+    obtain ⟨a1, a2, a3, a4, a5, a6, a7, a8, a9, a10, a11, a12⟩ := h
+    have hpu := (a6 hc').2.2.2.1
+    refine ⟨?_, a2, a3, a4, ?_, ?_, ?_, ?_, ?_, ?_, ?_, ?_⟩
+    · intro j; simpa using closeEffect_ok s.cfg (s.cli j) hk (by simpa [hc'] using a1 j)
+    · intro _; simp [hpu, hk]
+    · simp
+    · simp
+    · simp
+    · intro h1 j hj
+      exact absurd hj (by simpa using closeEffect_not_idle s.cfg (s.cli j) h1 (by simpa [hc'] using a1 j))
+    · simp
+    · intro h1; exact ⟨(a11 h1).1, by simp⟩
+    · intro h1 i j hi hj
+      exact a12 h1 i j (by simpa [closeEffect_inst] using hi) (by simpa [closeEffect_inst] using hj)
+
+
+theorem GOk.poolClose {s : St} (h : GOk s) (hk : s.cfg.kind = .pool) :
+    ∃ s', poolClose s = some s' ∧ GOk s' := by
+  have hb : s.blocked = [] := h.b
+  have hkn : s.cfg.kind ≠ .oneshot := by simp [hk]
+  refine ⟨_, by simp [Srv.poolClose, hb]; rfl, ?_⟩
+  unfold baseClose
+  by_cases hc : s.closedFlag = true
+  · -- already closed: nothing left to drop
+    simp only [hc, if_true]
+    have hcli : (s.mapCli dropEffect).cli = s.cli := by
+      funext j; simpa using dropEffect_closed s.cfg (s.cli j) hk (by simpa [hc] using h.cli j)
+    exact h.congr rfl (by simp [hc]) rfl rfl rfl rfl rfl rfl (by simp [(h.closed hc).2.2.2.2]) hcli (fun _ => rfl)
+  · have hc' : s.closedFlag = false := by simpa using hc
+    simp only [hc', Bool.false_eq_true, if_false]
+    obtain ⟨a1, a2, a3, a4, a5, a6, a7, a8, a9, a10, a11, a12⟩ := h
+    refine ⟨?_, a2, a3, a4, ?_, ?_, ?_, ?_, ?_, ?_, ?_, ?_⟩
+    · intro j; simpa using poolCloseEffect_ok s.cfg (s.cli j) hk (by simpa [hc'] using a1 j)
+    · intro _; simp
+    · simp
+    · simp
+    · simp
+    · intro h1; simp [hk] at h1
+    · simp
+    · intro h1; simp [hk] at h1
+    · intro h1; simp [hk] at h1
+
+
+theorem set_set_cli (s : St) (k : Nat) (a b : Cli) : ((s.set k a).set k b).cli = (s.set k b).cli := by
+  funext j; by_cases hj : j = k <;> simp [St.set, hj]
+
+/-- for the kinds whose accept thread never serves a client itself, any record may be replaced by one in shape -/
+theorem GOk.upd_free {s : St} (h : GOk s) (hk : s.cfg.kind ≠ .oneshot) (k : Nat) (c' : Cli)
+    (hc : COk s.cfg s.closedFlag c') : GOk (s.set k c') := by
+  obtain ⟨a1, a2, a3, a4, a5, a6, a7, a8, a9, a10, a11, a12⟩ := h
+  have hnone : s.acceptBusy = none := by
+    by_cases hcl : s.closedFlag = true
+    · exact (a5 hcl).2.2.2.1
+    · exact (a6 (by simpa using hcl)).2.2.2.2 hk
+  refine ⟨?_, a2, a3, a4, a5, a6, ?_, ?_, ?_, ?_, a11, ?_⟩
+  · intro j; by_cases hj : j = k
+    · subst hj; simpa using hc
+    · simpa [set_cli_ne _ _ _ _ hj] using a1 j
+  · intro b hb; simp [hnone] at hb
+  · intro h1; exact absurd h1 hk
+  · intro h1; exact absurd h1 hk
+  · intro h1; exact absurd h1 hk
+  · intro h1; exact absurd h1 hk
+
+/-- a request handled on an idle connection leaves it idle -/
+theorem req_ok (cfg : Cfg) (cl : Bool) (c : Cli) (l : List Item) (m seq n : Nat) (r : ReqKind) (p : Bool)
+    (h : COk cfg cl c) (hp : c.phase = .idle) (hpol : p = c.polled) :
+    COk cfg cl { (answer { c with inbox := l, nextSeq := m, phase := .queued, polled := false } seq r n).1 with
+                 inbox := [], phase := .idle, polled := p } := by
+  rcases c with ⟨cred, phase, inbox, inst, connOpen, connHooks, discHooks, srvFd, shut, child, table, replies, nextSeq,
+    clientOpen, partSent, tracked, inFd, polled⟩
+  cases r <;> simp_all (config := {decide := true}) [COk, Shape, Free, Served, Gone, answer]
+
+
+theorem COk.phases {cfg : Cfg} {cl : Bool} {c : Cli} (h : COk cfg cl c) :
+    c.phase = .absent ∨ c.phase = .backlog ∨ c.phase = .idle ∨ c.phase = .done := by
+  obtain ⟨_, _, hs⟩ := h
+  unfold Shape at hs
+  cases hp : c.phase <;> simp [hp] at hs ⊢
+
+theorem COk.idle {cfg : Cfg} {cl : Bool} {c : Cli} (h : COk cfg cl c) (hp : c.phase = .idle) : Served cfg cl c := by
+  obtain ⟨_, _, hs⟩ := h
+  simpa [Shape, hp] using hs
+
+theorem COk.done {cfg : Cfg} {cl : Bool} {c : Cli} (h : COk cfg cl c) (hp : c.phase = .done) : Gone cl c := by
+  obtain ⟨_, _, hs⟩ := h
+  simpa [Shape, hp] using hs
+
+theorem COk.backlog {cfg : Cfg} {cl : Bool} {c : Cli} (h : COk cfg cl c) (hp : c.phase = .backlog) :
+    Free c ∧ cfg.kind = .oneshot ∧ cl = false := by
+  obtain ⟨_, _, hs⟩ := h
+  simpa [Shape, hp] using hs
+
+/-- fields of a record the shapes do not read -/
+theorem COk.irrelevant {cfg : Cfg} {cl : Bool} {c : Cli} (h : COk cfg cl c) (hp : c.phase ≠ .idle) (l : List Item)
+    (m : Nat) (o : Bool) (hl : c.phase = .done → l = []) :
+    COk cfg cl { c with inbox := l, nextSeq := m, clientOpen := o } := by
+  rcases c with ⟨cred, phase, inbox, inst, connOpen, connHooks, discHooks, srvFd, shut, child, table, replies, nextSeq,
+    clientOpen, partSent, tracked, inFd, polled⟩
+  cases phase <;> simp_all (config := {decide := true}) [COk, Shape, Free, Served, Gone]
+
+/-- `s'` differs from `s` in the record of client `k` only (and in fields the invariant does not read) -/
+structure Agree (s s' : St) (k : Nat) : Prop where
+  cfg : s'.cfg = s.cfg
+  closedFlag : s'.closedFlag = s.closedFlag
+  listening : s'.listening = s.listening
+  active : s'.active = s.active
+  acceptAlive : s'.acceptAlive = s.acceptAlive
+  acceptBusy : s'.acceptBusy = s.acceptBusy
+  queue : s'.queue = s.queue
+  blocked : s'.blocked = s.blocked
+  poolUp : s'.poolUp = s.poolUp
+  accepted : s.cfg.kind = .oneshot → s'.accepted = s.accepted
+  other : ∀ j, j ≠ k → s'.cli j = s.cli j
+
+theorem Agree.cli_eq {s s' : St} {k : Nat} (a : Agree s s' k) : s'.cli = (s.set k (s'.cli k)).cli := by
+  funext j; by_cases hj : j = k
+  · subst hj; simp
+  · simp [set_cli_ne _ _ _ _ hj, a.other j hj]
+
+theorem GOk.agree {s s' : St} (h : GOk s) (k : Nat) (a : Agree s s' k) (hc : COk s.cfg s.closedFlag (s'.cli k))
+    (hp : (s'.cli k).phase = (s.cli k).phase) (hi : (s'.cli k).inst = (s.cli k).inst) : GOk s' :=
+  (h.upd k (s'.cli k) hc hp hi).congr a.cfg a.closedFlag a.listening a.active a.acceptAlive a.acceptBusy a.queue
+    a.blocked a.poolUp a.cli_eq a.accepted
+
+theorem GOk.agree_free {s s' : St} (h : GOk s) (hk : s.cfg.kind ≠ .oneshot) (k : Nat) (a : Agree s s' k)
+    (hc : COk s.cfg s.closedFlag (s'.cli k)) : GOk s' :=
+  (h.upd_free hk k (s'.cli k) hc).congr a.cfg a.closedFlag a.listening a.active a.acceptAlive a.acceptBusy a.queue
+    a.blocked a.poolUp a.cli_eq a.accepted
+
+theorem GOk.send_req {s : St} (h : GOk s) (k m seq : Nat) (r : ReqKind) (hk : (s.cli k).phase ≠ .absent) :
+    GOk (send (s.set k { s.cli k with nextSeq := m }) k [.req seq r]) := by
+  have hc := h.cli k
+  rcases hc.phases with hp | hp | hp | hp
+  · exact absurd hp hk
+  · -- waiting in the listen queue: the request stays unread
+    have hsh : (s.cli k).shut = false := (hc.backlog hp).1.2.2.2.2.2.2.2.2.2
+    refine h.agree k ?_ ?_ ?_ ?_
+    · constructor <;> simp [send, wake, hsh, hp]
+      intro j hj; simp [set_cli_ne _ _ _ _ hj]
+    · simpa [send, wake, hsh, hp] using
+        hc.irrelevant (by simp [hp]) ((s.cli k).inbox ++ [.req seq r]) m (s.cli k).clientOpen (by simp [hp])
+    · simp [send, wake, hsh, hp]
+    · simp [send, wake, hsh, hp]
+  · -- served and idle: answered at once
+    have hs := hc.idle hp
+    have hsh : (s.cli k).shut = false := hs.2.2.2.2.2.1
+    have hin : (s.cli k).inbox = [] := hs.1
+    by_cases hpool : s.cfg.kind = .pool
+    · have hcl : s.closedFlag = false := by
+        cases hcl : s.closedFlag with
+        | false => rfl
+        | true => have := hs.2.2.2.2.2.2.2.2.2.2.2.2 hcl; simp [hpool] at this
+      have hup : s.poolUp = true := by simpa [hpool] using (h.opn hcl).2.2.2.1
+      have hq := h.q
+      have hb := h.b
+      have hnb := h.nb hpool
+      have hfw : s.cfg.nb ≠ 0 := by omega
+      refine h.agree k ?_ ?_ ?_ ?_
+      · constructor <;>
+          simp [send, wake, hsh, hp, hpool, hin, poolWake, hup, hq, drain, freeWorkers, hfw, hb, poolServeOne, poolPlace, poolConsume,
+            answer_phase, poolFrames]
+        intro j hj; simp [set_cli_ne _ _ _ _ hj]
+      · obtain ⟨hq1, hq2, -⟩ := hc
+        obtain ⟨h1, h2, h3, h4, h5, h6, h7, h8, h9, h10, h11, h12, h13⟩ := hs
+        cases r <;>
+          simp [send, wake, hp, hpool, poolWake, hup, hq, drain, freeWorkers, hfw, hb, poolServeOne, poolPlace, poolConsume, answer,
+            poolFrames, COk, Shape, Served, *]
+      · simp [send, wake, hsh, hp, hpool, hin, poolWake, hup, hq, drain, freeWorkers, hfw, hb, poolServeOne, poolPlace, poolConsume,
+            answer_phase, poolFrames]
+      · simp [send, wake, hsh, hp, hpool, hin, poolWake, hup, hq, drain, freeWorkers, hfw, hb, poolServeOne, poolPlace, poolConsume,
+            answer_phase, answer_inst, poolFrames]
+    · refine h.agree k ?_ ?_ ?_ ?_
+      · constructor <;>
+          simp [send, wake, hsh, hp, hpool, hin, runDedicated, applyConsumed, consume, answer_phase, dedFrames]
+        intro j hj; simp [set_cli_ne _ _ _ _ hj]
+      · obtain ⟨hq1, hq2, -⟩ := hc
+        obtain ⟨h1, h2, h3, h4, h5, h6, h7, h8, h9, h10, h11, h12, h13⟩ := hs
+        cases r <;>
+          simp [send, wake, hp, hpool, runDedicated, applyConsumed, consume, answer, dedFrames, COk, Shape, Served, *] <;>
+          exact h13
+      · simp [send, wake, hsh, hp, hpool, hin, runDedicated, applyConsumed, consume, answer_phase, dedFrames]
+      · simp [send, wake, hsh, hp, hpool, hin, runDedicated, applyConsumed, consume, answer_phase, answer_inst, dedFrames]
+  · -- finished: nothing arrives
+    have hsh : (s.cli k).shut = true := (hc.done hp).1
+    refine h.agree k ?_ ?_ ?_ ?_
+    · constructor <;> simp [send, hsh]
+      intro j hj; simp [set_cli_ne _ _ _ _ hj]
+    · simpa [send, hsh] using
+        hc.irrelevant (by simp [hp]) (s.cli k).inbox m (s.cli k).clientOpen (by intro _; exact (hc.done hp).2.2.2.2.2.2.1)
+    · simp [send, hsh]
+    · simp [send, hsh]
+
+
+/-- `Server.close()` of a one-shot server whose only client has just been finished with -/
+theorem GOk.oneshot_end {s u : St} (h : GOk s) (hk : s.cfg.kind = .oneshot) (k : Nat)
+    (hp : (s.cli k).phase = .idle ∨ (s.cli k).phase = .backlog ∨ s.closedFlag = false)
+    (hcl : s.closedFlag = false)
+    (e1 : u.cfg = s.cfg) (e2 : u.closedFlag = false) (e3 : u.queue = []) (e4 : u.blocked = [])
+    (e5 : u.poolUp = false) (e6 : u.accepted ≤ 1) (e7 : ∀ j, j ≠ k → u.cli j = s.cli j)
+    (e8 : COk s.cfg false (u.cli k)) (e9 : (u.cli k).inst ≠ none → (s.cli k).inst ≠ none ∨ ∀ j, (s.cli j).inst = none) :
+    GOk (baseClose u) := by
+  have hko : s.cfg.kind ≠ .pool := by simp [hk]
+  have hcli : ∀ j, COk s.cfg false (u.cli j) := by
+    intro j; by_cases hj : j = k
+    · subst hj; exact e8
+    · rw [e7 j hj]; simpa [hcl] using h.cli j
+  unfold baseClose
+  simp only [e2, Bool.false_eq_true, if_false]
+  refine ⟨?_, ?_, ?_, ?_, ?_, ?_, ?_, ?_, ?_, ?_, ?_, ?_⟩
+  · intro j; simpa [e1] using closeEffect_ok s.cfg (u.cli j) hko (hcli j)
+  · simpa using e3
+  · simpa using e4
+  · intro h1; simp [e1, hk] at h1
+  · intro _; simp [e5]
+  · simp
+  · simp
+  · simp
+  · intro _ j hj
+    exact absurd hj (by simpa using closeEffect_not_idle s.cfg (u.cli j) hk (hcli j))
+  · simp
+  · intro _; exact ⟨by simpa using e6, by simp⟩
+  · intro _ i j hi hj
+    simp only [mapCli_cli, closeEffect_inst] at hi hj
+    by_cases hik : i = k <;> by_cases hjk : j = k
+    · rw [hik, hjk]
+    · subst hik
+      rw [e7 j hjk] at hj
+      rcases e9 hi with h1 | h1
+      · exact h.ouniq hk _ _ h1 hj
+      · exact absurd (h1 j) hj
+    · subst hjk
+      rw [e7 i hik] at hi
+      rcases e9 hj with h1 | h1
+      · exact h.ouniq hk _ _ hi h1
+      · exact absurd (h1 i) hi
+    · rw [e7 i hik] at hi; rw [e7 j hjk] at hj
+      exact h.ouniq hk _ _ hi hj
+
+
+@[simp] theorem endServe_phase (c : Cli) : (endServe c).phase = .done := rfl
+@[simp] theorem release_phase (c : Cli) : (release c).phase = .done := rfl
+@[simp] theorem endServe_inst (c : Cli) : (endServe c).inst = c.inst := by
+  unfold endServe release closeConn; split <;> rfl
+
+/-- one-shot: the accept thread comes back from its only client and closes the server -/
+theorem GOk.afterEnd_oneshot {s t : St} (h : GOk s) (hone : s.cfg.kind = .oneshot) (hcl : s.closedFlag = false)
+    (k : Nat) (a : Agree s t k) (hc : COk s.cfg false { t.cli k with tracked := false })
+    (hi : (t.cli k).inst ≠ none → (s.cli k).inst ≠ none ∨ ∀ j, (s.cli j).inst = none) : GOk (afterEnd t k) := by
+  have hpu : s.poolUp = false := by simpa [hone] using (h.opn hcl).2.2.2.1
+  unfold afterEnd
+  rw [a.cfg, if_pos hone]
+  refine h.oneshot_end hone k (Or.inr (Or.inr hcl)) hcl ?_ ?_ ?_ ?_ ?_ ?_ ?_ ?_ ?_
+  · simp [a.cfg]
+  · simp [a.closedFlag, hcl]
+  · simp [a.queue, h.q]
+  · simp [a.blocked, h.b]
+  · simp [a.poolUp, hpu]
+  · simpa [a.accepted hone] using (h.oacc hone).1
+  · intro j hj; simp [set_cli_ne _ _ _ _ hj, a.other j hj]
+  · simpa using hc
+  · intro h1; exact hi (by simpa using h1)
+
+/-- what the server makes of a connection whose client said goodbye or vanished -/
+theorem gone_ok (cfg : Cfg) (cl : Bool) (c : Cli) (l : List Item) (h : COk cfg cl c) (hp : c.phase = .idle) (ph : Phase) :
+    COk cfg cl { endServe { c with inbox := l, clientOpen := false, phase := ph, polled := false } with
+                    tracked := false, inFd := false } := by
+  rcases c with ⟨cred, phase, inbox, inst, connOpen, connHooks, discHooks, srvFd, shut, child, table, replies, nextSeq,
+    clientOpen, partSent, tracked, inFd, polled⟩
+  simp_all (config := {decide := true}) [COk, Shape, Free, Served, Gone, endServe, release, closeConn]
+
+theorem GOk.send_end {s : St} (h : GOk s) (k : Nat) (it : Item) (hit : it = .bye ∨ it = .fin)
+    (hk : (s.cli k).phase ≠ .absent) :
+    GOk (send (s.set k { s.cli k with clientOpen := false }) k [it]) := by
+  have hc := h.cli k
+  rcases hc.phases with hp | hp | hp | hp
+  · exact absurd hp hk
+  · have hsh : (s.cli k).shut = false := (hc.backlog hp).1.2.2.2.2.2.2.2.2.2
+    refine h.agree k ?_ ?_ ?_ ?_
+    · constructor <;> simp [send, wake, hsh, hp]
+      intro j hj; simp [set_cli_ne _ _ _ _ hj]
+    · simpa [send, wake, hsh, hp] using
+        hc.irrelevant (by simp [hp]) ((s.cli k).inbox ++ [it]) (s.cli k).nextSeq false (by simp [hp])
+    · simp [send, wake, hsh, hp]
+    · simp [send, wake, hsh, hp]
+  · have hs := hc.idle hp
+    have hsh : (s.cli k).shut = false := hs.2.2.2.2.2.1
+    have hin : (s.cli k).inbox = [] := hs.1
+    have hcl : s.closedFlag = false ∨ s.cfg.kind = .forking := by
+      cases hcl : s.closedFlag with
+      | false => exact Or.inl rfl
+      | true => exact Or.inr (hs.2.2.2.2.2.2.2.2.2.2.2.2 hcl)
+    have hg := fun l ph => gone_ok s.cfg s.closedFlag (s.cli k) l hc hp ph
+    have hco : (s.cli k).connOpen = true := hs.2.1
+    have htr : (s.cli k).tracked = (s.cfg.kind == .threaded || s.cfg.kind == .oneshot) := hs.2.2.2.2.2.2.2.1
+    have hfd : (s.cli k).inFd = (s.cfg.kind == .pool) := hs.2.2.2.2.2.2.2.2.2.2.1
+    have hpo : (s.cli k).polled = (s.cfg.kind == .pool) := hs.2.2.2.2.2.2.2.2.2.2.2.1
+    by_cases hpool : s.cfg.kind = .pool
+    · have hcl' : s.closedFlag = false := by
+        rcases hcl with h1 | h1
+        · exact h1
+        · simp [hpool] at h1
+      have hup : s.poolUp = true := by simpa [hpool] using (h.opn hcl').2.2.2.1
+      have hq := h.q
+      have hb := h.b
+      have hfw : s.cfg.nb ≠ 0 := by have := h.nb hpool; omega
+      have hone : s.cfg.kind ≠ .oneshot := by simp [hpool]
+      refine h.agree_free hone k ?_ ?_
+      · constructor <;> rcases hit with rfl | rfl <;>
+          simp [send, wake, hsh, hp, hpool, hin, poolWake, hup, hq, drain, freeWorkers, hfw, hb, poolServeOne, poolPlace,
+            poolConsume, poolFrames, endServe, release] <;>
+          (intro j hj; simp [set_cli_ne _ _ _ _ hj])
+      · rcases hit with rfl | rfl <;>
+          simpa (config := {decide := true}) [send, wake, hsh, hp, hpool, hin, poolWake, hup, hq, drain, freeWorkers, hfw,
+            hb, poolServeOne, poolPlace, poolConsume, poolFrames, endServe, release, closeConn, hco, htr, hfd, hpo]
+            using hg [] .queued
+    · by_cases hone : s.cfg.kind = .oneshot
+      · have hcl' : s.closedFlag = false := by
+          rcases hcl with h1 | h1
+          · exact h1
+          · simp [hone] at h1
+        have hpb : (s.cfg.kind == Kind.pool) = false := by simp [hpool]
+        have hpu : s.poolUp = false := by simpa [hpool] using (h.opn hcl').2.2.2.1
+        have hgk := hg [] .idle
+        rw [hcl'] at hgk
+        have hpo' : (s.cli k).polled = false := by simpa [hone] using hpo
+        have hfd' : (s.cli k).inFd = false := by simpa [hone] using hfd
+        rcases hit with rfl | rfl <;>
+          simp only [send, wake, set_cli_same, hsh, hp, hone, hin, runDedicated, applyConsumed, consume,
+            Bool.false_eq_true, if_false, if_true, List.nil_append, set_cfg, reduceCtorEq, endServe_phase] <;>
+          refine h.afterEnd_oneshot hone hcl' k ?_ ?_ ?_
+        all_goals first
+          | (constructor <;> simp <;> (intro j hj; simp [set_cli_ne _ _ _ _ hj]))
+          | (simpa [hpo', hfd', endServe, release, closeConn, hco] using hgk)
+          | (intro _; left; simpa using hs.2.2.1)
+      · have hpb : (s.cfg.kind == Kind.pool) = false := by simp [hpool]
+        refine h.agree_free hone k ?_ ?_
+        · constructor <;> rcases hit with rfl | rfl <;>
+            simp [send, wake, hsh, hp, hpool, hone, hin, runDedicated, applyConsumed, consume, afterEnd, dedFrames,
+              endServe, release] <;>
+            (intro j hj; simp [set_cli_ne _ _ _ _ hj])
+        · rcases hit with rfl | rfl <;>
+            simpa [send, wake, hsh, hp, hpool, hone, hin, runDedicated, applyConsumed, consume, afterEnd, dedFrames,
+              endServe, release, closeConn, hco, htr, hfd, hpo, hpb] using hg [] .idle
+  · have hsh : (s.cli k).shut = true := (hc.done hp).1
+    refine h.agree k ?_ ?_ ?_ ?_
+    · constructor <;> simp [send, hsh]
+      intro j hj; simp [set_cli_ne _ _ _ _ hj]
+    · simpa [send, hsh] using
+        hc.irrelevant (by simp [hp]) (s.cli k).inbox (s.cli k).nextSeq false (by intro _; exact (hc.done hp).2.2.2.2.2.2.1)
+    · simp [send, hsh]
+    · simp [send, hsh]
+
+
+/-! ### the accept loop -/
+
+theorem acceptAll_skip (l : List Nat) (s : St) (h : canAccept s = true → ∀ j ∈ l, (s.cli j).phase ≠ .backlog) :
+    acceptAll l s = s := by
+  induction l with
+  | nil => rfl
+  | cons a l ih =>
+    unfold acceptAll
+    have : ¬ (canAccept s = true ∧ (s.cli a).phase = .backlog) := by
+      intro ⟨h1, h2⟩; exact h h1 a (by simp) h2
+    simp only [Bool.and_eq_true, decide_eq_true_eq, this, if_false]
+    exact ih (fun h1 j hj => h h1 j (by simp [hj]))
+
+/-- with exactly one connection waiting, the loop accepts that one and finds nothing else -/
+theorem acceptAll_single (l : List Nat) (s : St) (k : Nat) (hk : k ∈ l) (hc : canAccept s = true)
+    (hb : (s.cli k).phase = .backlog) (ho : ∀ j, j ≠ k → (s.cli j).phase ≠ .backlog)
+    (ha : ∀ j, ((acceptOne s k).cli j).phase ≠ .backlog) : acceptAll l s = acceptOne s k := by
+  induction l with
+  | nil => simp at hk
+  | cons a l ih =>
+    unfold acceptAll
+    by_cases hak : a = k
+    · subst hak
+      simp only [hc, hb, Bool.and_self, decide_true, if_true]
+      exact acceptAll_skip l _ (fun _ j _ => ha j)
+    · have : (s.cli a).phase ≠ .backlog := ho a hak
+      simp only [this, decide_false, Bool.and_false, Bool.false_eq_true, if_false]
+      exact ih (by simpa [Ne.symm hak] using hk)
+
+theorem GOk.untrackAll {s : St} (h : GOk s) (hk : s.cfg.kind = .pool) : GOk (untrackAll s) := by
+  obtain ⟨a1, a2, a3, a4, a5, a6, a7, a8, a9, a10, a11, a12⟩ := h
+  refine ⟨?_, a2, a3, a4, a5, a6, ?_, ?_, ?_, ?_, a11, ?_⟩
+  · intro j; exact untrack_ok s.cfg s.closedFlag (s.cli j) (Or.inl hk) (a1 j)
+  · intro b hb; simpa [Srv.untrackAll] using a7 b hb
+  · intro h1; simp [Srv.untrackAll, hk] at h1
+  · intro h1; simp [Srv.untrackAll, hk] at h1
+  · intro h1; simp [Srv.untrackAll, hk] at h1
+  · intro h1; simp [Srv.untrackAll, hk] at h1
 
 end Rpyc.Srv
